@@ -3,6 +3,8 @@ from __future__ import annotations
 from dataclasses import dataclass, field
 from typing_extensions import List, Any, Optional
 import operator
+import types
+import typing
 
 import sqlalchemy
 import sqlalchemy.inspection
@@ -22,6 +24,21 @@ from ..entity_query_language.symbolic import (
 )
 
 from .dao import get_dao_class
+
+
+def _is_declared_optional(dao_class: type, field_name: str) -> bool:
+    """
+    :param dao_class: A DAO class.
+    :param field_name: The name of a field of the class the DAO class stands for.
+    :return: True if that class declares the field as Optional.
+    """
+    try:
+        hint = typing.get_type_hints(dao_class.original_class()).get(field_name)
+    except Exception:
+        return False
+    return typing.get_origin(hint) in (typing.Union, types.UnionType) and type(
+        None
+    ) in typing.get_args(hint)
 
 
 class EQLTranslationError(Exception):
@@ -873,7 +890,13 @@ class EQLTranslator:
 
         # Perform the join using the relationship attribute so SQLAlchemy
         # determines the ON clause, while we control aliasing of the right side
-        self.sql_query = self.sql_query.join(aliased_target, relationship_attr)
+        # a reference that may be None: the rows without a target stay (the path may be one side of an or_ only),
+        # a comparison with a column of the missing target does not hold for them
+        self.sql_query = self.sql_query.join(
+            aliased_target,
+            relationship_attr,
+            isouter=_is_declared_optional(dao_class, attribute_name),
+        )
 
         # Record both the logical path and the table as joined to avoid duplicates
         self.join_manager.add_path_join(dao_class, attribute_name, aliased_target)
